@@ -971,6 +971,44 @@ func icTimeDate(fr *frame, args []value) value {
 		}
 		return timeVal{st.Sub(y.of, st.bin(OpURem, y.of, BV(nsPerDay, 64)))}
 	}
+	// General case inside a declared time window: every symbolic component
+	// comes from an instant of the window; fix the UTC day of each such
+	// instant on this path (a fork per feasible day) and compute with the
+	// concrete calendar values.
+	if m.timeWinHi != 0 {
+		conc := make([]int, 7)
+		ok := true
+		for i := 0; i < 7 && ok; i++ {
+			t := args[i].(*Term)
+			if t.IsConst() {
+				conc[i] = int(sext64(t.c, 64))
+				continue
+			}
+			tc, isComp := m.timeComps[t]
+			if !isComp || !m.inTimeWindow(tc.of) {
+				ok = false
+				break
+			}
+			first := m.timeWinLo - m.timeWinLo%nsPerDay
+			idx := m.dayChain(tc.of, func(d uint64) *Term { return BV((d-first)/nsPerDay, 64) })
+			k := m.concretize(idx, "day of an instant")
+			day := nsToTime(first + k*nsPerDay)
+			switch tc.what {
+			case "year":
+				conc[i] = day.Year()
+			case "month":
+				conc[i] = int(day.Month())
+			case "day":
+				conc[i] = day.Day()
+			default:
+				ok = false
+			}
+		}
+		if ok {
+			r := time.Date(conc[0], time.Month(conc[1]), conc[2], conc[3], conc[4], conc[5], conc[6], time.UTC)
+			return timeVal{BV(uint64(r.UnixNano()), 64)}
+		}
+	}
 	panic(pathAbort{"time.Date with symbolic components other than midnight truncation"})
 }
 
